@@ -129,6 +129,18 @@ func (v *Version) Compare(other *Version) int {
 		return releaseComparison
 	}
 
+	// Compare pre-releases. A dev release of the bare release (1.0.dev1) sorts
+	// before every pre-release of that release (1.0a1), per PEP 440.
+	vDevOnly := v.prerelease == "" && v.postrelease == -1 && v.dev != -1
+	otherDevOnly := other.prerelease == "" && other.postrelease == -1 && other.dev != -1
+	if vDevOnly != otherDevOnly {
+		if vDevOnly && other.prerelease != "" {
+			return -1
+		}
+		if otherDevOnly && v.prerelease != "" {
+			return 1
+		}
+	}
 	preComparison := comparePrereleases(v.prerelease, v.preNumber, other.prerelease, other.preNumber)
 	if preComparison != 0 {
 		return preComparison
